@@ -1,5 +1,13 @@
 (* C04 — multi-valued features behave like the collection they declare.
-   Statements only; proofs are in Proofs/OSetProofs.v. *)
+   Statements only; proofs are in Proofs/OSetProofs.v.
+   At the end of this file, on the kernel model (Proofs/SelfExtend.v): c.extend(c) / c += c /
+   c.update(c), the argument being the collection itself (OExtend x f (vals s (x,f))), for every
+   many-valued feature without opposite and without containment (attributes and plain
+   references), from any state: a non-unique collection is doubled as a Python list extended
+   by itself, a unique one keeps its content; the call is accepted, no other slot changes, the
+   slot is marked set.  (Containment references: Props/C02.v,
+   C02_extend_by_the_own_collection_moves_nothing; references WITH a non-containment opposite
+   are not covered by a self-extension theorem.) *)
 From Coq Require Import ZArith List Bool.
 From PyecoreV Require Import Lib.PyBase Lib.PyList Model.OSet Model.Coll Proofs.OSetProofs Gen.KernelTables Proofs.KernelTablesProofs.
 Import ListNotations.
@@ -70,3 +78,46 @@ Theorem C04_the_declared_collection_follows_unique :
     list_like (create_kind false ordered unique) = negb unique.
 Proof. exact create_follows_unique. Qed.
 Print Assumptions C04_the_declared_collection_follows_unique.
+
+(* ---------- a collection extended by itself, on the kernel model ---------- *)
+From PyecoreV Require Import Model.Kernel Proofs.SelfExtend.
+Open Scope nat_scope.
+
+Theorem C04_list_extended_by_itself_is_doubled :
+  forall m f, f_cont (fd m f) = false -> f_opp (fd m f) = None ->
+  forall s x,
+    f_unique (fd m f) = false -> forallb (check_elem m f) (vals s (x, f)) = true ->
+    let s' := next m s (OExtend x f (vals s (x, f))) in
+    fst (fst (step m s (OExtend x f (vals s (x, f))))) = None /\
+    vals s' (x, f) = vals s (x, f) ++ vals s (x, f) /\
+    (forall k, k <> (x, f) -> vals s' k = vals s k) /\
+    isset s' (x, f) = true /\ (forall c, cont s' c = cont s c).
+Proof. exact self_extend_list. Qed.
+Print Assumptions C04_list_extended_by_itself_is_doubled.
+
+Theorem C04_set_updated_by_itself_is_unchanged :
+  forall m f, f_cont (fd m f) = false -> f_opp (fd m f) = None ->
+  forall s x,
+    f_unique (fd m f) = true -> forallb (check_elem m f) (vals s (x, f)) = true ->
+    let s' := next m s (OExtend x f (vals s (x, f))) in
+    fst (fst (step m s (OExtend x f (vals s (x, f))))) = None /\
+    vals s' (x, f) = vals s (x, f) /\
+    (forall k, k <> (x, f) -> vals s' k = vals s k) /\
+    isset s' (x, f) = true /\ (forall c, cont s' c = cont s c).
+Proof. exact self_extend_set. Qed.
+Print Assumptions C04_set_updated_by_itself_is_unchanged.
+
+(* [1;2] -> [1;2;1;2] for an EList attribute and an EList reference, unchanged for an EOrderedSet *)
+Example C04_self_extend_witness :
+  let m := ex_mm_self in
+  let s := fold_left (next m) ex_self_ops (init_state m) in
+  let after (f : fid) := next m s (OExtend 0 f (vals s (0, f))) in
+  (vals s (0, 0), vals s (0, 1), vals s (0, 2)) =
+    ([VInt 1%Z; VInt 2%Z], [VInt 1%Z; VInt 2%Z], [VObj 1; VObj 2]) /\
+  vals (after 0) (0, 0) = vals s (0, 0) ++ vals s (0, 0) /\
+  vals (after 1) (0, 1) = vals s (0, 1) /\
+  vals (after 2) (0, 2) = vals s (0, 2) ++ vals s (0, 2) /\
+  (vals (after 0) (0, 0), vals (after 1) (0, 1), vals (after 2) (0, 2), inv (after 2) 1) =
+    ([VInt 1%Z; VInt 2%Z; VInt 1%Z; VInt 2%Z], [VInt 1%Z; VInt 2%Z], [VObj 1; VObj 2; VObj 1; VObj 2], [(0, 2)]).
+Proof. exact self_extend_witness. Qed.
+Print Assumptions C04_self_extend_witness.
